@@ -50,6 +50,7 @@ Definition E_INVALID_HANDLE : N := 1.
 Definition E_READ_NOT_PERMITTED : N := 2.
 Definition E_WRITE_NOT_PERMITTED : N := 3.
 Definition E_INVALID_PDU : N := 4.
+Definition E_REQUEST_NOT_SUPP : N := 6.
 Definition E_INVALID_OFFSET : N := 7.
 Definition E_ATTR_NOT_FOUND : N := 10.
 Definition E_INVALID_ATTR_VALUE_LENGTH : N := 13.
@@ -208,11 +209,15 @@ Fixpoint wq_add (q : list (N * list (nat * bytes))) (h : N) (w : nat * bytes) :=
   | (k, ws) :: r => if N.eqb k h then (k, ws ++ [w]) :: r else (k, ws) :: wq_add r h w
   end.
 
-(** [on_prepare_write_request] *)
+(** [on_prepare_write_request]: only characteristic values can be queued; a CCCD is refused
+    with REQUEST_NOT_SUPPORTED, services, declarations and the other descriptors with
+    WRITE_NOT_PERMITTED *)
 Definition srv_prepare (s : server) (h : N) (off : nat) (v : bytes) : server * option rsp :=
   match lookup (sdb s) h with
   | None => (s, Some (RErr OP_PREPARE h E_INVALID_HANDLE))
-  | Some _ => (set_wq s (wq_add (wq s) h (off, v)), Some (RPrep h off v))
+  | Some (AValue _ _) => (set_wq s (wq_add (wq s) h (off, v)), Some (RPrep h off v))
+  | Some (ACccd _) => (s, Some (RErr OP_PREPARE h E_REQUEST_NOT_SUPP))
+  | Some _ => (s, Some (RErr OP_PREPARE h E_WRITE_NOT_PERMITTED))
   end.
 
 (** one queued write applied to the current value; [None] = offset beyond the value *)
@@ -473,7 +478,11 @@ Definition acc_info m := match m with RInfo _ => true | _ => is_err m end.
 
 Definition result := (outcome val * client * server)%type.
 
-(** [proclock]: the lock is released on return, AttError and GattTimeoutException only *)
+(** [c_locked] = a lock the next procedure needs is still held.  [proclock] now releases the
+    procedure lock in a [finally]; what remains is the transmit lock of
+    [lock_tx(); att.request(...); unlock_tx()], left held when building the request raises
+    (struct.error on a field that does not fit: [EOther]).  Values, ATT errors and timeouts
+    leave nothing held. *)
 Definition releases (o : outcome val) : bool :=
   match o with
   | Ok _ => true
